@@ -192,10 +192,23 @@ def run_cache_unit(tier, seed, rd, fxv):
                      ["--seed", str(rng.randrange(1 << 30)), "--calls", str(calls),
                       "--high", str(high), "--low", str(low),
                       "--nkeys", str(nkeys), "--nb", str(nb)]))
+    panicked = set()
     for tag, trace, argv in jobs:
         rc, so, se = v.run_cmd([fxv, "cache", "--out", trace] + argv, timeout=300)
         if rc != 0:
+            if "panicked at" in (se or "") and v.panic_in_code_under_test(se):
+                # a panic inside the cache (e.g. the usage counter driven below zero: the harness is built with
+                # overflow checks, as the crate's own test profile is) is a result, not a tool error
+                keep = v.save_replay("c16", "cache_%s_panic.txt" % tag,
+                                     "fxv cache --out <trace> %s\n%s" % (" ".join(argv), v.clip_stderr(se, 3000)))
+                m = re.search(r"panicked at [^\n]*\n[^\n]*", se)
+                violations.append({"what": "the cache panics under the call sequence %s (%s): %s"
+                                           % (tag, " ".join(argv), (m.group(0) if m else se[-300:]).replace("\n", " ")),
+                                   "replay": keep, "key": "cache panic"})
+                panicked.add(tag)
+                continue
             raise v.ToolError("fxv cache (%s) failed rc=%s: %s" % (tag, rc, (se or so)[-500:]))
+    jobs = [j for j in jobs if j[0] not in panicked]
 
     # ---- 3. validate every recording with TLC
     def val(job):
